@@ -213,7 +213,10 @@ OutTunnelReq(o, e) ==
                    !.xs = Append(@, [NoEx EXCEPT !.pid = e.pid, !.fate = "tcp", !.first = t, !.ft = t])]
   ELSE IF (ExOpen(o) \/ o.ex.fate = "amb") /\ e.hex = o.ex.hex THEN
      \* retransmission of the open exchange (it also settles an ambiguous one: not acknowledged)
-     LET o1 == FlagIf(o, IF o.exact THEN t # o.ex.last + o.R ELSE t < o.ex.last + o.R - Slk(o), "C03.RetxPeriod")
+     LET o1 == \* virtual time: exactly one resend interval after the previous transmission.  Real time: ticks may be
+         \* delivered late (shortening the next gap) or dropped, never early, so the k-th retransmission cannot
+         \* come before first + k * R.
+         FlagIf(o, IF o.exact THEN t # o.ex.last + o.R ELSE t < o.ex.first + o.ex.ntx * o.R - 1000, "C03.RetxPeriod")
          o2 == FlagIf(o1, t > o.ex.first + o.T + USlk(o), "C03.RetxAfterDeadline")
          settle == o.ex.fate = "amb" /\ o.ex.ast = -1   \* ambiguous only because of a parked offer: evidently not taken
      IN [o2 EXCEPT !.ex.last = t, !.ex.ntx = @ + 1, !.ex.fate = IF settle THEN "open" ELSE @,
